@@ -70,6 +70,7 @@ type workerSummary struct {
 	States     []string         `json:"states"`
 	Samples    []*Case          `json:"samples"`
 	Known      map[string]int   `json:"known"`
+	Cover      []string         `json:"cover"`
 	WallMs     int64            `json:"wall_ms"`
 }
 
@@ -118,6 +119,7 @@ func workerMain(t *testing.T) {
 	fps := map[string]bool{}
 	orders := map[string]bool{}
 	states := map[string]bool{}
+	cover := map[string]bool{}
 	out := bufio.NewWriter(os.Stdout)
 	defer out.Flush()
 	start := time.Now()
@@ -152,6 +154,11 @@ func workerMain(t *testing.T) {
 		}
 		if o.StateHash != "" && len(states) < maxFP {
 			states[o.StateHash] = true
+		}
+		for it := range o.Cover {
+			if len(cover) < 200000 {
+				cover[it] = true
+			}
 		}
 		if len(sum.Samples) < 2 && o.Nontrivial {
 			sum.Samples = append(sum.Samples, c)
@@ -215,6 +222,9 @@ func workerMain(t *testing.T) {
 	for f := range states {
 		sum.States = append(sum.States, f)
 	}
+	for f := range cover {
+		sum.Cover = append(sum.Cover, f)
+	}
 	sum.WallMs = time.Since(start).Milliseconds()
 	b, _ := json.Marshal(sum)
 	fmt.Fprintf(out, "S %s\n", b)
@@ -244,7 +254,7 @@ func oneMain(t *testing.T) {
 		fmt.Printf("V %s\n", vb)
 	}
 	fmt.Printf("DIGEST %s\n", o.Digest)
-	meta, _ := json.Marshal(map[string]interface{}{"stats": o.Stats, "sim_ms": o.SimMs, "fp": o.Fingerprint, "nontrivial": o.Nontrivial, "order": o.OrderHash, "state": o.StateHash})
+	meta, _ := json.Marshal(map[string]interface{}{"stats": o.Stats, "sim_ms": o.SimMs, "fp": o.Fingerprint, "nontrivial": o.Nontrivial, "order": o.OrderHash, "state": o.StateHash, "cover": o.Cover})
 	fmt.Printf("META %s\n", meta)
 	if os.Getenv("VERIF_HISTORY") != "" {
 		for _, h := range o.History {
@@ -368,12 +378,13 @@ func runIsolated(bin string, c *Case) *Outcome {
 				Nontrivial bool             `json:"nontrivial"`
 				Order      string           `json:"order"`
 				State      string           `json:"state"`
+				Cover      map[string]bool  `json:"cover"`
 			}
 			if json.Unmarshal([]byte(line[5:]), &m) == nil {
 				for k, v := range m.Stats {
 					o.Stats[k] += v
 				}
-				o.SimMs, o.Fingerprint, o.Nontrivial, o.OrderHash, o.StateHash = m.SimMs, m.FP, m.Nontrivial, m.Order, m.State
+				o.SimMs, o.Fingerprint, o.Nontrivial, o.OrderHash, o.StateHash, o.Cover = m.SimMs, m.FP, m.Nontrivial, m.Order, m.State, m.Cover
 			}
 		}
 	}
@@ -475,6 +486,7 @@ func driverMain(t *testing.T) int {
 	fps := map[string]bool{}
 	orders := map[string]bool{}
 	states := map[string]bool{}
+	cover := map[string]bool{}
 	var viols []violationMsg
 	var rules, real, stub, assume []string
 	level := "exploration"
@@ -561,6 +573,9 @@ func driverMain(t *testing.T) int {
 							}
 							for _, f := range s.States {
 								states[f] = true
+							}
+							for _, f := range s.Cover {
+								cover[f] = true
 							}
 							for id, n := range s.Known {
 								total.Known[id] += n
@@ -696,6 +711,7 @@ func driverMain(t *testing.T) int {
 		"probes":                 probes,
 		"distinct_event_orders":  len(orders),
 		"distinct_state_digests": len(states),
+		"distinct_coverage_items": len(cover),
 		"real_components":        uniq(real),
 		"stub_components":        uniq(stub),
 		"variants":               perVariant,
